@@ -114,6 +114,7 @@ func cloneOut(o *Outcome) {}
 
 // runScenario performs one execution.
 func runScenario(cfg *Config, prefix []PrefixItem, keepTrace bool) (Scenario, *Outcome) {
+	CurrentScenario = cfg.Name
 	if cfg.FairnessK > 0 {
 		defer func(k int) { FairnessK = k }(FairnessK)
 		FairnessK = cfg.FairnessK
